@@ -398,3 +398,21 @@ def cond_atom(fn, bid):
             if init is not None:
                 t = init
     return t, pol
+
+
+def side_effect_action(tu):
+    """the virtual that runs one SIDE_EFFECT, by role: the only virtual method (besides the destructor) of
+    side_effect_base.  Falls back to the reference name."""
+    r = getattr(tu, "_se_action", None)
+    if r is not None:
+        return r
+    r = A["side_effect_action"]
+    vm = set(f.qe for f in tu.fns.values() if erase(f.rec.get("clsq", "")) == NS + "side_effect_base"
+             and f.rec.get("kind") == "method" and f.rec.get("virtual"))
+    if len(vm) == 1:
+        r = vm.pop()
+    try:
+        tu._se_action = r
+    except Exception:
+        pass
+    return r
